@@ -15,8 +15,8 @@ from lib.common import log
 SPEC = common.SPEC / "containers"
 # nonnull-attribute is off: memcpy(dst, nullptr, 0) on an empty array is flagged by UBSan but touches no memory
 FLAGS = ["-O1", "-g", "-UNDEBUG", "-fno-lifetime-dse", "-fsanitize=address,undefined", "-fno-sanitize=nonnull-attribute", "-fno-omit-frame-pointer"]
-TYPES = ["int", "dbl", "str", "trk", "pod"]   # pod: trivially copyable class with default member initialisers
-CLASS_TYPES = ("str", "trk", "pod")
+TYPES = ["int", "dbl", "str", "trk", "pod", "any"]   # pod: trivially copyable class with default member initialisers; any: std::any
+CLASS_TYPES = ("str", "trk", "pod", "any")
 
 ASSUMPTIONS = [
     "element types are bitwise relocatable; Array(ptr, n, copy=false) is only given a malloc'ed, placement-constructed buffer",
